@@ -66,9 +66,19 @@ class Property(Node):
         f = "%(tab)s%(property)s:%(ws)s%(style)s%(important)s;%(nl)s"
         imp = ' !important' if self.important else ''
         if fills['nl']:
-            self.parsed = [
-                ',%s' % fills['ws'] if p == ',' else p for p in self.parsed
-            ]
+            # a blank after every comma of the value, but not after a comma that is
+            # a piece of an interpolated string ("@{a},@{b}")
+            parsed = []
+            quote = None
+            for p in self.parsed:
+                if quote is None and p in ('"', "'"):
+                    quote = p
+                elif quote is not None and p == quote:
+                    quote = None
+                elif quote is None and p == ',':
+                    p = ',%s' % fills['ws']
+                parsed.append(p)
+            self.parsed = parsed
         style = ''.join([
             p.fmt(fills) if hasattr(p, 'fmt') else str(p) for p in self.parsed
         ])
